@@ -4,7 +4,8 @@
 open Model
 open Sfio
 
-(* ---- model text on the wire: two hex digits per character, 'N' + 16 hex digits per number ---- *)
+(* ---- model text on the wire: two hex digits per character, 'N' + 16 hex digits per number,
+   'X' for a stretch of text on which text/scanner reports a lexical error (the model's Bad) ---- *)
 let ascii_of_int (i : int) : ascii =
   let b k = (i lsr k) land 1 = 1 in
   Ascii (b 0, b 1, b 2, b 3, b 4, b 5, b 6, b 7)
@@ -18,6 +19,7 @@ let mtext_parse (s : string) : ch list =
   let rec go i acc =
     if i >= n then List.rev acc
     else if s.[i] = 'N' then go (i + 17) (Num (n_of_hex (String.sub s (i + 1) 16)) :: acc)
+    else if s.[i] = 'X' then go (i + 1) (Bad :: acc)
     else go (i + 2) (C (ascii_of_int (16 * hexval s.[i] + hexval s.[i + 1])) :: acc) in
   go 0 []
 
@@ -25,14 +27,16 @@ let mtext_print (l : ch list) : string =
   let b = Buffer.create 256 in
   List.iter (function
       | C a -> Buffer.add_string b (Printf.sprintf "%02x" (int_of_ascii a))
-      | Num v -> Buffer.add_char b 'N'; Buffer.add_string b (hex_of_n 16 v)) l;
+      | Num v -> Buffer.add_char b 'N'; Buffer.add_string b (hex_of_n 16 v)
+      | Bad -> Buffer.add_char b 'X') l;
   Buffer.contents b
 
 let readable (l : ch list) : string =
   let b = Buffer.create 256 in
   List.iter (function
       | C a -> Buffer.add_char b (Char.chr (int_of_ascii a))
-      | Num v -> Buffer.add_string b ("#" ^ hex_of_n 16 v)) l;
+      | Num v -> Buffer.add_string b ("#" ^ hex_of_n 16 v)
+      | Bad -> Buffer.add_string b "<LEXICAL-ERROR>") l;
   String.escaped (Buffer.contents b)
 
 let model_parse (mt : string) : string =
@@ -111,16 +115,36 @@ let () =
         if mp <> f.(3) then fail id "CORR" "parse_trailing" (trunc ("text=" ^ show f.(2) ^ " model=" ^ mp ^ " impl=" ^ f.(3)));
         if f.(3) <> "ERR" then fail id "SPEC" "trailing_rejected" (trunc ("text=" ^ show f.(2) ^ " got=" ^ f.(3)))
       | "TG" ->
-        (* trailing garbage: f2 label, f3 hex of the (clipped) raw text, f4 model text or UNREP,
-           f5 result with NoValidate, f6 result with validation *)
-        count "trailing_garbage";
-        count ("garbage_" ^ (if f.(4) = "UNREP" then "spec_only" else "model_too"));
+        (* a member of the malformed trailing stream, fully recorded: f2 fragment, f3 hex of the
+           (clipped) raw text, f4 model text or UNREP (outside the model's alphabet) or LONG,
+           f5 result with NoValidate, f6 result with validation.  SPEC: whatever non-blank material
+           follows a complete document, the parse fails (theorems wkt_trailing_rejected,
+           wkt_trailing_text_rejected, wkt_lexical_error_rejected). *)
+        count "trailing_recorded";
+        count ("trailing_" ^ (if f.(4) = "UNREP" || f.(4) = "LONG" then "spec_only" else "model_too"));
+        (if String.length f.(4) > 0 && f.(4).[String.length f.(4) - 1] = 'X' then count "trailing_model_lexical_error");
         let raw = String.escaped (String.concat "" (List.map (fun b -> String.make 1 (Char.chr (int_of_n b))) (bytes_of_hex f.(3)))) in
         if f.(5) <> "ERR" then fail id "SPEC" "trailing_garbage_rejected" (trunc ("kind=" ^ f.(2) ^ " text=" ^ raw ^ " got=" ^ f.(5)));
         if f.(6) <> "ERR" then fail id "SPEC" "trailing_garbage_rejected_validating" (trunc ("kind=" ^ f.(2) ^ " text=" ^ raw ^ " got=" ^ f.(6)));
-        if f.(4) <> "UNREP" then begin
+        if f.(4) <> "UNREP" && f.(4) <> "LONG" then begin
           let mp = model_parse f.(4) in
           if mp <> f.(5) then fail id "CORR" "parse_trailing_garbage" (trunc ("text=" ^ raw ^ " model=" ^ mp ^ " impl=" ^ f.(5))) end
+      | "TS" ->
+        (* the whole malformed trailing stream behind one text: f2 hex of the text, f3 variants per
+           fragment, f4 one flag per combination with NoValidate (E rejected, A accepted, P panic),
+           f5 the same with validation ('-' where the text itself does not validate).  Every
+           combination that is not rejected is also on record as a TG line (id <case>.x<fragment>.<variant>). *)
+        count "trailing_stream_texts";
+        let nvar = int_of_string f.(3) in
+        let raw = String.escaped (String.concat "" (List.map (fun b -> String.make 1 (Char.chr (int_of_n b))) (bytes_of_hex f.(2)))) in
+        let judge which flags =
+          String.iteri (fun i c ->
+              count "trailing_stream_parses";
+              if c = 'P' then fail id "SPEC" "parser_panic" (trunc (Printf.sprintf "%s: text=%s followed by fragment #%d variant %d" which raw (i / nvar) (i mod nvar)))
+              else if c <> 'E' && c <> '-' then
+                fail id "SPEC" "trailing_stream_rejected"
+                  (trunc (Printf.sprintf "%s: text=%s followed by fragment #%d variant %d is accepted" which raw (i / nvar) (i mod nvar)))) flags in
+        judge "NoValidate" f.(4); judge "validating" f.(5)
       | "F" ->
         count "floats";
         if f.(4) <> "ok" then fail id "SPEC" "float_oracle" (f.(2) ^ " " ^ f.(3) ^ " " ^ f.(4))
